@@ -35,7 +35,8 @@ def run(ctx, escalated=False):
         ctx.count("entry:" + r["entry"])
         extra.append(Case({"kind": "conductor", "spec": r["spec"], "polls": r["polls"], "returned": r["ret"],
                            "entry": r["entry"], "exit_code": r["exit"], "options": r["options"],
-                           "cancel_at_poll": r["cancelled"], "cancel_how": r["cancel_how"]}, [], [],
+                           "cancel_at_poll": r["cancelled"], "cancel_how": r["cancel_how"]},
+                          [r["loop"][0]] if r["loop"] else [], [r["loop"][1]] if r["loop"] else [],
                           r["mon"]["C05"][:3],
                           r["cancelled"] is not None or r["nontrivial"]))
         ctx.count("conductor:" + r["ret"])
